@@ -160,8 +160,11 @@ def run_history(plan) -> dict:
     else:
         l1p, l2p = plan["seedpos"]
         first = tr.ops[0]
-        if first.outcome.kind != "ok":
-            raise common.HarnessError(f"history seed step failed: {first.outcome.exc!r}")
+        if first.outcome.kind != "ok" or (first.op["op"] == "unprotect" and first.outcome.value != first.plaintext):
+            et, frame = drive.exc_sig(first.outcome)
+            return {"viol": common.violation("C02", "derivation", "history-seed-step", et, frame, "",
+                                             f"online unprotect at the envelope's own position ({l1p},{l2p}) against a conforming DC failed: {first.outcome.exc!r}"),
+                    "digest": tr.world.digest(), "key": common.key_hash(plan), "fired": {}, "probes": probes, "vtime_ns": 0}
         for ot in tr.ops[1:]:
             pos = tuple(ot.blob_spec["pos"][1:])
             if pos <= (l1p, l2p):
